@@ -1,7 +1,8 @@
 (* M8 (exec): util.c:exec()'s mapping of the wait status, what match.c / expr.c make of it, and the
    descriptor table a forked child inherits.  No proofs here. *)
-From Coq Require Import List Bool ZArith.
+From Coq Require Import List Bool NArith ZArith.
 Import ListNotations.
+From MD Require Import Bytes Generated.
 Local Open Scope Z_scope.
 
 Inductive wstatus := WExited (code : Z) | WSignaled (sig : positive) | WaitFailed | ForkFailed | OpenNullFailed.
@@ -47,3 +48,37 @@ Definition fd_step (t : list fdesc) (o : fdop) : list fdesc :=
    by design; 0 is replaced by dup2) *)
 Definition inherited (t : list fdesc) : list nat :=
   map fd_num (filter (fun d => negb (fd_cloexec d)) t).
+
+(* ---- the TZ variable of the process environment across date conditions (mdsort.c:readenv, time.c:tzabbr) ----
+   readenv snapshots TZ once (unset / empty / set, value copied into a buffer of Generated.tz_buf_size bytes, too long = mdsort
+   does not start); every Date header whose zone is an abbreviation makes tzabbr put that abbreviation into TZ for one
+   localtime() call and then restore the variable from the snapshot.  Children started by exec / command inherit whatever
+   the variable is at that moment.  setenv / unsetenv are assumed to succeed (they fail only for lack of memory). *)
+Inductive tz_state := TzLocal | TzUtc | TzSet.
+Record tz_snap := mk_snap { ts_state : tz_state; ts_buf : bytes }.
+
+Definition readenv_tz (tz : option bytes) : option tz_snap :=
+  match tz with
+  | None => Some (mk_snap TzLocal [])
+  | Some s => if (N.of_nat (length s) <? tz_buf_size)%N
+              then Some (mk_snap (match s with [] => TzUtc | _ => TzSet end) s)
+              else None
+  end.
+
+(* the variable after one call tzabbr(str) that found it as cur *)
+Definition tzabbr_env (snap : tz_snap) (cur : option bytes) (str : bytes) : option bytes :=
+  match str with
+  | [] => cur                                  (* empty zone text: returns before touching the environment *)
+  | _ => match ts_state snap with
+         | TzLocal => None                     (* unsetenv("TZ") *)
+         | TzUtc | TzSet => Some (ts_buf snap) (* setenv("TZ", t_buf, 1) *)
+         end
+  end.
+
+(* TZ as a child sees it after the zone abbreviations `zones` went through tzabbr, for a process started with `tz`;
+   None = mdsort refused to start *)
+Definition child_tz (tz : option bytes) (zones : list bytes) : option (option bytes) :=
+  match readenv_tz tz with
+  | Some snap => Some (fold_left (tzabbr_env snap) zones tz)
+  | None => None
+  end.
